@@ -37,6 +37,13 @@ pub fn features(f: &F, v: &V) -> Vec<String> {
             }
         }
     }
+    if f.name == "han" && v.kind() == Kind::Term {
+        if let Some(w) = leading_word(&v.term) {
+            if han_item_lookalike_suffix(w) {
+                fs.push("han-bare-word-ending-in-a-stamp-or-truth-form".to_string());
+            }
+        }
+    }
     fs
 }
 
@@ -68,6 +75,36 @@ pub fn leading_word(r: &R) -> Option<&str> {
         Tag::Word => Some(r.name.as_str()),
         _ => None,
     }
+}
+
+/// a bare word whose text ends in a Han stamp form (过去 / 现在 / 将来 / 发生在<digits>) or truth form
+/// (真<numbers>值)
+pub fn han_item_lookalike_suffix(name: &str) -> bool {
+    for k in ["过去", "现在", "将来"] {
+        if name.ends_with(k) && name != k {
+            return true;
+        }
+    }
+    let cs: Vec<char> = name.chars().collect();
+    // 发生在 + [0-9+-]*
+    let mut i = cs.len();
+    while i > 0 && (cs[i - 1].is_ascii_digit() || cs[i - 1] == '+' || cs[i - 1] == '-') {
+        i -= 1;
+    }
+    if i >= 3 && cs[i - 3..i] == ['发', '生', '在'] {
+        return true;
+    }
+    // 真 + [0-9.、]* + 值
+    if cs.last() == Some(&'值') {
+        let mut j = cs.len() - 1;
+        while j > 0 && (cs[j - 1].is_ascii_digit() || cs[j - 1] == '.' || cs[j - 1] == '、') {
+            j -= 1;
+        }
+        if j > 0 && cs[j - 1] == '真' {
+            return true;
+        }
+    }
+    false
 }
 
 /// `预 [0-9.、]* 算 …`
@@ -162,6 +199,9 @@ pub fn run(run: &Run) {
         let terms = u::u_term(&f, tier);
         let mut vals: Vec<V> = terms.into_iter().map(V::term).collect();
         vals.extend(u::u_sent(&f));
+        if f.name == "han" {
+            vals.extend(u::han_collide_values());
+        }
         run.count(&format!("values_{}", f.name), vals.len() as u64);
         // distinct canonical, non-atom
         let distinct: std::collections::HashSet<CV> = vals
